@@ -448,6 +448,8 @@ def _payload_key(p: Any):
         return ("enum", type(p).__name__, p.name)
     if isinstance(p, (tuple, list)):
         return ("seq", tuple(_payload_key(x) for x in p))
+    if isinstance(p, (set, frozenset)):
+        return ("set", tuple(sorted((_payload_key(x) for x in p), key=repr)))
     if isinstance(p, AffineMap):
         return ("affine_map", p.num_dims, p.num_symbols, tuple(_affine_key(e) for e in p.results))
     if isinstance(p, AffineSet):
